@@ -25,6 +25,17 @@ Bounded exhaustive exploration on the real ChoiceSetsGeneration / GenerateModel 
          which two segments share an alternative (one segment listed twice included), full set given or defaulted: it is
          refused, or - when accepted - no choice set / MEV sample generated from it (every chosen alternative, sizes all-1 and
          all-n, sampler answering first-n / last-n) contains an alternative twice.
+ part G  (histories on ONE model generator) one GenerateModel object is asked for several models in turn - every sequence of
+         2 (thorough: also 3) calls from {get_logit, get_nested_logit(N0 / N1 / N2), get_cross_nested_logit} that are valid for
+         the context, repetitions included - and afterwards EVERY expression obtained is evaluated (own BIOGEME object each, in
+         building order or in reverse) against the unchanged likelihood oracles: all sequences on the 3-row table of the fully
+         sampled contexts, rotating ones elsewhere.
+ part D  (malformed inputs the library may accept) an alternative table with one id on two rows (every id, duplicate row next
+         to the original or at the end), more / fewer sizes than strata, strata that do not cover the table - x every partition
+         into <= 3 strata of 3 ids (thorough: <= 2 strata of 4 ids too) x every size vector x first / MEV role x every chosen
+         alternative x EVERY answer of the sampler (odometer over all combinations of rows per request): refused, or the clauses
+         of the statement that are still defined hold (chosen first, no alternative twice, count and correction of every
+         stratum that has a size).
 
 Oracles (reference: vf/ref_sampling.py, plain Python):
   per generated row  - chosen first, no duplicates, exactly k_s per stratum (chosen counts), members = what the
@@ -50,7 +61,10 @@ TECHNIQUE = ('bounded exhaustive enumeration of partitions x sample sizes x choi
              'and of the logit / nested / cross-nested likelihoods; the nests handed over in every form (names absent, '
              'colliding, plain tuple / list); bounded histories of other contexts / generations on the same data frames; '
              'sizes / partition handed over in every form of the declared types (generator, iterator, view, tuple, default full '
-             'set); every list of overlapping segments (non-partition) refused or free of duplicates')
+             'set); every list of overlapping segments (non-partition) refused or free of duplicates; bounded histories of '
+             'model-building calls on one GenerateModel object, every expression evaluated afterwards; malformed tables / size '
+             'vectors (id on two rows, fewer / more sizes, strata not covering) refused or still within the protocol under every '
+             'sampler answer')
 RULE = ('one case per generated row = (alternative table, partition, size vector, specification, chosen alternative, '
         'answer of the first sampler [, MEV partition, MEV sizes, answer of the second sampler]) and one case per '
         '(generated table, model, parameter point) likelihood comparison. A row is non-trivial when the sampler had a '
@@ -66,7 +80,13 @@ RULE = ('one case per generated row = (alternative table, partition, size vector
         'Part S: the 3-row table of a context generated again with the sizes / partition in another of 14 form combinations: '
         'all 14 for every 6th fully sampled MEV context (thorough: every 3rd fully sampled context), one (two) rotating '
         'combinations for every other context. Part P: one case per (ordered list of overlapping segments, full set given / '
-        'defaulted); distinct = distinct lists.')
+        'defaulted); distinct = distinct lists. Part G: one case per (table, sequence of <= 2 (3) model-building calls on one '
+        'GenerateModel object, evaluation order, model of the sequence, parameter point): all 16 (9 for CNL contexts) ordered '
+        'pairs on the 3-row table of every fully sampled nested context and every 2nd fully sampled CNL context (thorough: all '
+        'pairs on every fully sampled context, all triples on every 16th, 2 rotating triples elsewhere), 1-2 rotating pairs for '
+        'the other contexts with a second sample, logit-logit for fully sampled / every 4th (2nd) context without one; '
+        'evaluation order alternates. Part D: one case per (kind of malformation, partition, size vector, role, duplicated id, '
+        'place of the duplicate row), all chosen alternatives and all sampler answers inside.')
 ASSUMPTIONS = [
     'the only random source of the generator is pandas.DataFrame.sample called from sampling_of_alternatives.py; the seam '
     'counts its calls, so a bypass (another random source) is reported as a violation, not missed',
@@ -84,6 +104,13 @@ ASSUMPTIONS = [
     'part P: a list of overlapping segments that the library ACCEPTS is generated from with two sampler answers only '
     '(first n / last n rows), one individual per table; an exception during that generation is counted, not a violation '
     '(the statement only forbids an alternative twice)',
+    'part G: the calls are made with freshly built nests objects on one generator; each expression is evaluated in its own '
+    'BIOGEME object created after all calls, the objects used strictly one after the other (two BIOGEME objects alive and used '
+    'alternately on expressions that share sub-expressions are not explored); get_nested_logit on a context without a second '
+    'sample is not explored',
+    'part D: inputs outside the statement\'s domain; only the outcome refused / clauses-hold is demanded, a table with one id on '
+    'two rows that is accepted and yields that id twice in one choice set is reported (clause "contains no alternative twice"); '
+    'fewer / more sizes than strata and non-covering strata that are accepted are observations unless a defined clause breaks',
     'likelihoods are compared at relative 1e-10 (+1e-12); rows whose sampled nested/CNL term needs log(0) (a nest with no '
     'sampled MEV member) are out of domain and counted',
 ]
@@ -1094,6 +1121,13 @@ def tasks(tier, seed):
         step = 5 if tier == 'quick' else (1 if nseg == 4 else 4)
         for i in range(0, len(subs), step):
             out.append(dict(part='P', J=Jp, nseg=nseg, firsts=subs[i:i + step]))
+    # part D: malformed inputs that the library may ACCEPT - an alternative table with one id on two rows, fewer / more sizes
+    # than strata, strata that do not cover the table: refused, or the well-defined clauses of the statement hold
+    for Jd in ([3] if tier == 'quick' else [3, 4]):
+        dcases = malformed_cases(Jd)
+        step = 40 if Jd == 3 else 30
+        for i in range(0, len(dcases), step):
+            out.append(dict(part='D', cases=dcases[i:i + step]))
     # simplest first, but the heavy ones must not all sit at the end: keep order (contexts are simplest first)
     return out
 
@@ -1211,6 +1245,9 @@ def run_task(task):
         elif task['part'] == 'V':
             for case in task['cases']:
                 _validation_case(case, rec)
+        elif task['part'] == 'D':
+            for case in task['cases']:
+                _malformed_case(case, rec)
         elif task['part'] == 'P':
             for first in task['firsts']:
                 for segs in non_partitions(task['J'], task['nseg'], first):
@@ -1375,11 +1412,158 @@ def _non_partition_case(case, rec):
     rec.case(key, (J, segs, full, outcomes), outcome=('P', cls, len(segs), 'accepted', tuple(sorted(set(o[-1] for o in outcomes)))))
 
 
+def malformed_cases(J):
+    """part D: every (kind of malformation, partition into <= 2 (J = 3: <= 3) strata, size vector, role first / MEV)"""
+    ids = IDS[:J]
+    out = []
+    for part in R.set_partitions(ids, 3 if J == 3 else 2):
+        for ks in R.size_vectors(part):
+            for role in ('first', 'mev'):
+                for d in range(J):
+                    for where in ('end', 'next'):
+                        out.append(dict(part='D', kind='duplicated-id', J=J, segs=part, ks=ks, role=role, dup=d, where=where))
+                out.append(dict(part='D', kind='more-sizes-than-strata', J=J, segs=part, ks=ks + [1], role=role))
+                if len(part) > 1:
+                    out.append(dict(part='D', kind='fewer-sizes-than-strata', J=J, segs=part, ks=ks[:-1], role=role))
+                    out.append(dict(part='D', kind='strata-not-covering-the-table', J=J, segs=part[:-1], ks=ks[:-1], role=role))
+    return out
+
+
+class OdoSeam:
+    """Owned sampler of part D: the i-th request of one generation is answered with the prefix[i]-th combination of n rows of
+    the frame it was asked on (0 beyond the prefix); the trace lets the caller step through EVERY answer (odometer)."""
+
+    def __init__(self, prefix):
+        self.prefix = list(prefix)
+        self.trace = []
+        self.pos = 0
+
+    def __call__(self, df, n=None, frac=None, replace=False, weights=None, random_state=None, axis=None,
+                 ignore_index=False):
+        import itertools
+        self.pos += 1
+        k = int(n)
+        if k < 0 or k > len(df):
+            raise ValueError(f'Cannot take a larger sample than population when replace=False (n={n}, rows={len(df)})')
+        opts = list(itertools.combinations(range(len(df)), k))
+        i = len(self.trace)
+        c = self.prefix[i] if i < len(self.prefix) else 0
+        self.trace.append((c, len(opts)))
+        out = df.iloc[list(opts[c])].copy()
+        if ignore_index:
+            out = out.reset_index(drop=True)
+        return out
+
+
+def _malformed_case(case, rec):
+    """Inputs outside the domain of the statement that the library may nevertheless accept.  Oracle (nothing beyond the
+    statement): the input is refused (any exception, at any stage) - or every generated choice set / MEV sample still lists
+    the chosen alternative first, contains no alternative twice, and gives every alternative of a stratum that HAS a requested
+    size the count k and the correction ln(k/n) (weight n/k).  EVERY answer of the sampler is enumerated."""
+    import pandas as pd
+    from biogeme.partition import Partition
+    from biogeme.sampling_of_alternatives import SamplingContext, ChoiceSetsGeneration
+
+    kind, J, segs, ks, role = case['kind'], case['J'], case['segs'], case['ks'], case['role']
+    ids = IDS[:J]
+    alts = alt_table(J)
+    if kind == 'duplicated-id':
+        extra = dict(alts[case['dup']])
+        extra['cost'] = extra['cost'] + 0.5   # another row under the same id
+        at = len(alts) if case['where'] == 'end' else case['dup'] + 1
+        alts = alts[:at] + [extra] + alts[at:]
+    sized = list(zip(segs, ks))   # what zip() pairs: the strata that have a requested size
+    utility, cvs = build_spec('S0')
+    key = ('D', kind, J, repr(segs), tuple(ks), role, case.get('dup'), case.get('where'))
+    outcomes = []
+    reported = set()
+    gens = 0
+    for u, chosen in enumerate(ids):
+        ind = individual(J, u, chosen)
+        alts_df = pd.DataFrame({c: [a[c] for a in alts] for c in [R.ID] + ATTRS})
+        ind_df = pd.DataFrame({c: [ind[c]] for c in ['choice'] + IND_COLS})
+        try:
+            the = Partition([set(b) for b in segs], full_set=set(a for b in segs for a in b))
+            if role == 'first':
+                kw = dict(the_partition=the, sample_sizes=list(ks))
+            else:
+                kw = dict(the_partition=Partition([set(ids)], full_set=set(ids)), sample_sizes=[1],
+                          mev_partition=the, mev_sample_sizes=list(ks))
+            ctx = SamplingContext(individuals=ind_df, choice_column='choice', alternatives=alts_df, id_column=R.ID,
+                                  biogeme_file_name=FILE_NAME, utility_function=utility, combined_variables=cvs, **kw)
+        except Exception as e:
+            outcomes.append((chosen, 'refused-at-construction', type(e).__name__))
+            continue
+        prefix = []
+        while True:
+            seam = OdoSeam(prefix)
+            install(seam)
+            data = None
+            try:
+                data = ChoiceSetsGeneration(ctx).sample_and_merge(recycle=False).data
+            except Exception as e:
+                outcomes.append((chosen, 'refused-at-generation', type(e).__name__))
+            finally:
+                uninstall()
+                _cleanup()
+            gens += 1
+            if data is not None:
+                pre = '_MEV_' if role == 'mev' else ''
+                pat = re.compile(r'^' + pre + re.escape(R.ID) + r'_(\d+)$')
+                pos = sorted(int(pat.match(c).group(1)) for c in data.columns if pat.match(c))
+                got = [_fnum(data[f'{pre}{R.ID}_{i}'].iloc[0]) for i in pos]
+                bad = []
+                if any(v is None or math.isnan(v) for v in got):
+                    bad.append(('alternative-missing', got))
+                got = [int(v) for v in got if v is not None and not math.isnan(v)]
+                if len(set(got)) != len(got):
+                    bad.append(('alternative-twice', got))
+                if role == 'first' and (not got or got[0] != chosen):
+                    bad.append(('chosen-not-first', got))
+                for b, k in sized:
+                    members = [i for i, a in zip(pos, got) if a in b]
+                    if kind != 'duplicated-id' and len(members) != k:
+                        bad.append(('stratum-count', dict(stratum=b, requested=k, got=got)))
+                    for i in members:
+                        col = f'_MEV__mev_weight_{i}' if role == 'mev' else f'_log_proba_{i}'
+                        v = _fnum(data[col].iloc[0]) if col in data.columns else None
+                        want = len(b) / k if role == 'mev' else math.log(k / len(b))
+                        if not R.close(v, want):
+                            bad.append(('correction-not-ln-k-over-n' if role == 'first' else 'mev-weight-not-n-over-k',
+                                        dict(position=i, stratum=b, k=k, expected=want, observed=v)))
+                outcomes.append((chosen, 'generated', tuple(sorted(set(c for c, _ in bad))) or 'clauses-hold'))
+                for clause, obs in bad:
+                    if clause in reported:
+                        continue
+                    reported.add(clause)
+                    rec.violation(
+                        f'C19|{kind}-accepted-and-{clause}|' + ('id-on-two-rows' if kind == 'duplicated-id' else role),
+                        f'malformed input ({kind}) was accepted: alternative ids {[a[R.ID] for a in alts]}, strata {segs} with sizes '
+                        f'{ks} as the {role} partition, individual choosing {chosen}; sampler answers (index of the combination of '
+                        f'rows per request) {[c for c, _ in seam.trace]}: the generated '
+                        f'{"choice set" if role == "first" else "MEV sample"} is {got} - {clause}: {obs}',
+                        dict(case, chosen=chosen, answer=[c for c, _ in seam.trace]),
+                        expected='refused, or the clauses of the statement hold', observed=obs)
+            trace = list(seam.trace)
+            while trace and trace[-1][0] + 1 >= trace[-1][1]:
+                trace.pop()
+            if not trace or gens > 4000:
+                if trace:
+                    rec.count('capped')
+                break
+            prefix = [c for c, _ in trace[:-1]] + [trace[-1][0] + 1]
+    rec.count('malformed_input_generations', gens)
+    summary = tuple(sorted(set(repr(o[1:]) for o in outcomes)))
+    rec.case(key, (key, tuple(outcomes)), outcome=('D', kind, role, summary))
+
+
 def replay(case):
     rec = Rec()
     try:
         if case.get('part') == 'P':
             _non_partition_case(case, rec)
+        elif case.get('part') == 'D':
+            _malformed_case({k: v for k, v in case.items() if k not in ('chosen', 'answer')}, rec)
         elif case.get('part') == 'V':
             _validation_case(case, rec)
         else:
